@@ -990,23 +990,7 @@ func (c *Ctx) checkDispatch(m *serverModel) {
 		}
 	}
 	if m.reqFn != nil {
-		var sc []ssa.CallInstruction
-		for _, ci := range an.Calls(m.reqFn) {
-			if isMuxServe(ci.Common()) && isCall(ci) {
-				sc = append(sc, ci)
-			}
-		}
-		ok := len(sc) == 1
-		if ok {
-			k := an.CountEvents(m.reqFn, an.Entry(m.reqFn), isInstr(sc[0]), nil)
-			for _, ret := range an.Returns(m.reqFn) {
-				if k[ret] != an.C1 {
-					ok = false
-				}
-			}
-			args := sc[0].Common().Args
-			ok = ok && isThisIterationWriter(an.StripX(args[1]), m) && isThisRequest(an.StripX(args[2]), m)
-		}
+		ok, _ := serveExactlyOnce(m.reqFn, m)
 		R.Check(ok, "C03-dispatch", fname(m.reqFn)+": serve(w, r) exactly once", c.P.Pos(m.reqFn.Pos()), "one call on every path with this iteration's writer and request", "the per-request goroutine does not call router.serve exactly once with this iteration's (w, r)")
 		c.checkOwnIteration("C03-dispatch", m)
 	}
@@ -1027,3 +1011,45 @@ func (c *Ctx) checkOwnIteration(rule string, m *serverModel) {
 }
 
 var _ = types.Identical
+
+// serveExactlyOnce: on every path through the per-request goroutine's function
+// exactly one call of router.serve runs (there may be several call sites on
+// exclusive paths), each with this iteration's writer and request.
+func serveExactlyOnce(t *ssa.Function, m *serverModel) (bool, string) {
+	var sc []ssa.CallInstruction
+	for _, ci := range an.Calls(t) {
+		if isMuxServe(ci.Common()) {
+			if !isCall(ci) {
+				return false, "router.serve is deferred or started with go inside the per-request goroutine"
+			}
+			sc = append(sc, ci)
+		}
+	}
+	if len(sc) == 0 {
+		return false, "the per-request goroutine never calls router.serve"
+	}
+	isServe := func(in ssa.Instruction) bool {
+		for _, x := range sc {
+			if ssa.Instruction(x) == in {
+				return true
+			}
+		}
+		return false
+	}
+	cnt := an.CountEvents(t, an.Entry(t), isServe, nil)
+	for _, ret := range an.Returns(t) {
+		if cnt[ret] != an.C1 {
+			return false, "router.serve runs " + cnt[ret].String() + " times on a path through the per-request goroutine"
+		}
+	}
+	for _, x := range sc {
+		args := x.Common().Args
+		if !isThisIterationWriter(an.StripX(args[1]), m) {
+			return false, "router.serve is not given this iteration's writer"
+		}
+		if !isThisRequest(an.StripX(args[2]), m) {
+			return false, "router.serve is not given the request just read"
+		}
+	}
+	return true, ""
+}
